@@ -280,6 +280,16 @@ def net_scenarios(rng: random.Random, n: int, n_low: int) -> List[Dict[str, Any]
         m = dict(base, backend="match", scale_bit=sb, shift_pos=sp)
         u = dict(base, backend="maupiti", scale_bit=16, shift_pos=32)
         scs += [m, u]
+    # two fixed shapes so that every tier meets the scenario classes of F30 (dilated depthwise conv, MATCH) and F31
+    # (network ending in a conv, MAUPITI) whatever the seed
+    c = {"bias": True, "bn": False, "wb": 8, "ab": 8, "clip": 6000}
+    dws = _conv(rng, dws=True, out=3, k=[3, 1], d=[2, 1], p=[2, 0], **c)
+    probes = [[_conv(rng, out=3, **c), dws, {"op": "flat"}, {"op": "lin", "out": 3, "relu": False, **c}],
+              [_conv(rng, out=3, **c), _conv(rng, out=2, k=[1, 1], p=[0, 0], relu=False, **c), {"op": "flat"}]]
+    for j, layers in enumerate(probes):
+        base = {"kind": "net", "c0": 2, "h": 6, "w": 6, "in_bits": 8, "batch": 2, "gain": 1.0, "wseed": rng.randrange(1 << 30),
+                "xseed": rng.randrange(1 << 30), "layers": layers, "nsamp": 5, "idx": n + n_low + j}
+        scs += [dict(base, backend="match", scale_bit=24, shift_pos=24), dict(base, backend="maupiti", scale_bit=16, shift_pos=32)]
     for i in range(n_low):
         base = low_bias_net(rng, n + i)
         sb, sp = EDGE_OPTS[i % 4]                                  # shift_pos 32 with scale_bit 32 / 24 / 16 / 8
